@@ -41,11 +41,11 @@ def plan(tier, seed):
                for k in range(3)]
         return sh
     sh = [{'kind': 'enum', 'L': 5, 'k': k, 'n': 16, 'name': 'enum%d' % k} for k in range(16)]
-    sh += [{'kind': 'soup', 'count': 25000, 'name': 'soup%d' % k} for k in range(16)]
+    sh += [{'kind': 'soup', 'count': 100000, 'name': 'soup%d' % k} for k in range(16)]
     sh += [{'kind': 'nlargs', 'count': 40000, 'name': 'nlargs%d' % k} for k in range(4)]
-    sh += [{'kind': 'docs', 'vocab': 'default', 'count': 5000, 'depth': 4 + k % 3, 'name': 'ddoc%d' % k} for k in range(8)]
-    sh += [{'kind': 'docs', 'vocab': 'custom', 'count': 5000, 'depth': 4 + k % 3, 'name': 'cdoc%d' % k, 'cb': k * 200}
-           for k in range(8)]
+    sh += [{'kind': 'docs', 'vocab': 'default', 'count': 15000, 'depth': 4 + k % 3, 'name': 'ddoc%d' % k} for k in range(16)]
+    sh += [{'kind': 'docs', 'vocab': 'custom', 'count': 15000, 'depth': 4 + k % 3, 'name': 'cdoc%d' % k, 'cb': k * 500}
+           for k in range(16)]
     return sh
 
 
